@@ -295,7 +295,7 @@ async fn do_spawn(sc: Arc<Scenario>, w: W, idx: usize, run_tag: String) {
     }
 }
 
-async fn client(sc: Arc<Scenario>, w: W, ops: Vec<COp>, run_tag: String) {
+pub async fn client(sc: Arc<Scenario>, w: W, ops: Vec<COp>, run_tag: String) {
     for op in ops {
         yield_once().await;
         match op {
